@@ -104,8 +104,31 @@ type cmacFace interface {
 
 // newLib builds the object under test with an explicit size (so that the
 // constructor sweep can pass invalid ones).
-func newLib(o Obj) cbcmac.BlockCipherMAC {
-	k1, k2 := o.keys()
+func newLib(o Obj) cbcmac.BlockCipherMAC { return newLibS(o, false) }
+
+// scribble overwrites every byte the caller owns, spare capacity included.
+func scribble(b []byte) {
+	b = b[:cap(b)]
+	for i := range b {
+		b[i] = 0xEE ^ byte(i*29)
+	}
+}
+
+// newLibS is newLib with the "scribble" discipline: the key slices handed to
+// the cipher / MAC constructors are private copies that are overwritten with
+// garbage as soon as the constructor has returned; an object that kept a
+// reference into them computes wrong tags from then on.
+func newLibS(o Obj, scrib bool) cbcmac.BlockCipherMAC {
+	k1, k2 := o.keys() // fresh slices on every call
+	m := buildLib(o, k1, k2)
+	if scrib {
+		scribble(k1)
+		scribble(k2)
+	}
+	return m
+}
+
+func buildLib(o Obj, k1, k2 []byte) cbcmac.BlockCipherMAC {
 	cr := libCreator(o.Ci)
 	blk := func() cipher.Block {
 		b, err := cr(k1)
@@ -216,15 +239,57 @@ func buildMsg(seed uint64, n, content, bs int) []byte {
 
 const sentinel = 0xA5
 
-// withSpare returns a copy of m inside a backing array that has spare more
-// bytes of capacity, pre-filled with a sentinel.
-func withSpare(m []byte, spare int) (msg, backing []byte) {
+// Flavours of a zero-length slice argument (h.B cannot tell them apart, so
+// the cases carry the flavour explicitly).
+const (
+	zNil   = 0 // nil
+	zEmpty = 1 // []byte{}
+	zBuf0  = 2 // buf[:0] of a non-empty buffer (spare capacity >= 1, sentinel-filled)
+)
+
+var zNames = []string{"zero-length:nil", "zero-length:[]byte{}", "zero-length:buf[:0]"}
+
+// argSlice returns the slice handed to the library for the bytes m: a private
+// copy inside a backing array that has spare more bytes of capacity,
+// pre-filled with a sentinel. For a zero-length m the flavour z decides
+// between nil, []byte{} and buf[:0] (nil and []byte{} have no capacity, so
+// spare is ignored for them; buf[:0] has at least one spare byte).
+func argSlice(m []byte, spare, z int, seen *[3]bool) (msg, backing []byte) {
+	if len(m) == 0 {
+		seen[z] = true
+		switch z {
+		case zNil:
+			return nil, nil
+		case zEmpty:
+			return []byte{}, nil
+		}
+		spare = max(spare, 1)
+	}
 	backing = make([]byte, len(m)+spare)
 	for i := range backing {
 		backing[i] = sentinel
 	}
 	copy(backing, m)
 	return backing[:len(m)], backing
+}
+
+// labelFlavours records which zero-length flavours a case handed over.
+func labelFlavours(r *h.Rec, seen *[3]bool) {
+	for z, ok := range seen {
+		if ok {
+			r.Label(zNames[z])
+			r.NT()
+		}
+	}
+}
+
+func spareUntouched(backing []byte, n int) bool {
+	for i := n; i < len(backing); i++ {
+		if backing[i] != sentinel {
+			return false
+		}
+	}
+	return true
 }
 
 func lenLabels(r *h.Rec, n, bs int) {
@@ -286,14 +351,40 @@ func freshTag(o Obj, msg []byte) []byte {
 
 type valCase struct {
 	Obj
-	Len     int
-	Content int
-	Spare   int
-	Seed    uint64
+	Len      int
+	Content  int
+	Spare    int
+	Seed     uint64
+	Z        int  // flavour of the zero-length message (Len == 0 only): zNil, zEmpty, zBuf0
+	Scribble bool // overwrite keys, message slice and returned tag after each call
 }
 
 func (c valCase) Key() string {
-	return fmt.Sprintf("%d/%d/%d/%d/%d/%d/%d", c.Scheme, c.Ci, c.Pad, c.Size, c.Len, c.Content, c.Spare)
+	return fmt.Sprintf("%d/%d/%d/%d/%d/%d/%d/%d/%v", c.Scheme, c.Ci, c.Pad, c.Size, c.Len, c.Content, c.Spare, c.Z, c.Scribble)
+}
+
+// macCall runs MAC on a private copy of orig handed over in the flavour
+// (spare, z), checks that the message bytes are intact and returns a private
+// copy of the tag. With scrib the argument slice (spare capacity included)
+// and the returned slice (up to its capacity) are overwritten with garbage
+// afterwards: nothing the object does later may depend on either.
+func macCall(m cbcmac.BlockCipherMAC, o Obj, orig []byte, spare, z int, scrib bool, r *h.Rec, seen *[3]bool) ([]byte, error) {
+	msg, backing := argSlice(orig, spare, z, seen)
+	ret := m.MAC(msg)
+	tag := append([]byte{}, ret...)
+	if !bytes.Equal(msg, orig) {
+		return nil, fmt.Errorf("%v: MAC modified the caller's message (spare capacity %d): %s -> %s", o, spare, h.Hex(orig), h.Hex(msg))
+	}
+	if backing != nil && !spareUntouched(backing, len(orig)) {
+		// append-style padding into the caller's spare capacity: outside the
+		// property statement (only the message bytes are protected); recorded
+		r.Label("observed:spare-capacity-written")
+	}
+	if scrib {
+		scribble(ret)
+		scribble(backing)
+	}
+	return tag, nil
 }
 
 func checkVal(c valCase, r *h.Rec) error {
@@ -308,27 +399,23 @@ func checkVal(c valCase, r *h.Rec) error {
 	if c.Content > 0 {
 		r.Label("structured-content")
 	}
+	if c.Scribble {
+		r.Label("scribble")
+	}
 	orig := buildMsg(c.Seed, c.Len, c.Content, bs)
-	msg, backing := withSpare(orig, c.Spare)
-	m := newLib(o)
+	m := newLibS(o, c.Scribble)
 	if m.Size() != o.Size {
 		return fmt.Errorf("%v: Size() = %d, requested %d", o, m.Size(), o.Size)
 	}
 	if cm, ok := m.(cmacFace); ok && cm.BlockSize() != bs {
 		return fmt.Errorf("%v: BlockSize() = %d, cipher block size %d", o, cm.BlockSize(), bs)
 	}
-	tag := append([]byte{}, m.MAC(msg)...)
-	if !bytes.Equal(backing[:c.Len], orig) {
-		return fmt.Errorf("%v: MAC modified the caller's message (spare capacity %d): %s -> %s", o, c.Spare, h.Hex(orig), h.Hex(backing[:c.Len]))
+	var seen [3]bool
+	tag, err := macCall(m, o, orig, c.Spare, c.Z, c.Scribble, r, &seen)
+	if err != nil {
+		return err
 	}
-	for i := c.Len; i < len(backing); i++ {
-		if backing[i] != sentinel {
-			// append-style padding into the caller's spare capacity: outside the
-			// property statement (only the message bytes are protected); recorded
-			r.Label("observed:spare-capacity-written")
-			break
-		}
-	}
+	labelFlavours(r, &seen)
 	if err := checkTag(o, orig, tag, r, "fresh object"); err != nil {
 		return err
 	}
@@ -337,10 +424,15 @@ func checkVal(c valCase, r *h.Rec) error {
 	}
 	// cheap history: another message of another length class, then m again
 	other := buildMsg(c.Seed^0x5a5a, c.Len+bs/2+1, 0, bs)
-	m.MAC(other)
-	again := m.MAC(append([]byte{}, orig...))
+	if _, err := macCall(m, o, other, 0, zEmpty, c.Scribble, &h.Rec{}, &seen); err != nil {
+		return err
+	}
+	again, err := macCall(m, o, orig, 0, (c.Z+1)%3, c.Scribble, &h.Rec{}, &seen)
+	if err != nil {
+		return err
+	}
 	if !bytes.Equal(again, tag) {
-		return fmt.Errorf("%v: MAC(m) on a fresh object = %s, after MAC(m); MAC(m') on the same object = %s (m=%s, m'=%s)", o, h.Hex(tag), h.Hex(again), h.Hex(orig), h.Hex(other))
+		return fmt.Errorf("%v: MAC(m) on a fresh object = %s, after MAC(m); MAC(m') on the same object = %s (m=%s, m'=%s, scribble=%v)", o, h.Hex(tag), h.Hex(again), h.Hex(orig), h.Hex(other), c.Scribble)
 	}
 	return nil
 }
@@ -383,7 +475,11 @@ func enumVal(emit func(valCase), ciphers []int) {
 									if n == 0 && content > 0 {
 										continue
 									}
-									emit(valCase{Obj{scheme, ci, pad, size, ks}, n, content, spare, ks})
+									emit(valCase{Obj{scheme, ci, pad, size, ks}, n, content, spare, ks, zBuf0, content%2 == 0})
+									if n == 0 && spare == 0 {
+										emit(valCase{Obj{scheme, ci, pad, size, ks}, n, content, spare, ks, zNil, true})
+										emit(valCase{Obj{scheme, ci, pad, size, ks}, n, content, spare, ks, zEmpty, false})
+									}
 								}
 							} else {
 								// every (scheme, cipher, ctor, size, len, spare class); content rotates
@@ -391,7 +487,13 @@ func enumVal(emit func(valCase), ciphers []int) {
 								if n == 0 {
 									content = 0
 								}
-								emit(valCase{Obj{scheme, ci, pad, size, ks}, n, content, spare, ks})
+								// three quarters of the cases scribble; the zero-length message
+								// comes as nil and []byte{} (no capacity) and as buf[:0] (spare >= 1)
+								z := zBuf0
+								if n == 0 && spare == 0 {
+									z = size % 2 // zNil / zEmpty
+								}
+								emit(valCase{Obj{scheme, ci, pad, size, ks}, n, content, spare, ks, z, i%4 != 3})
 								i++
 							}
 						}
@@ -433,19 +535,21 @@ type Op struct {
 	K     string `json:"k"`
 	N     int    `json:"n"`
 	C     int    `json:"c,omitempty"`
-	Spare int    `json:"spare,omitempty"`
+	Spare int    `json:"spare,omitempty"` // spare capacity of the slice argument (mac, write, sum)
+	Z     int    `json:"z,omitempty"`     // flavour of a zero-length slice argument: zNil, zEmpty, zBuf0
 }
 
 type histCase struct {
 	Obj
-	Ops  []Op
-	Seed uint64
+	Ops      []Op
+	Seed     uint64
+	Scribble bool // overwrite keys, every slice argument and every returned slice right after the call
 }
 
 func (c histCase) Key() string {
-	s := fmt.Sprintf("%d/%d/%d/%d/%x", c.Scheme, c.Ci, c.Pad, c.Size, c.KeySeed)
+	s := fmt.Sprintf("%d/%d/%d/%d/%x/%v", c.Scheme, c.Ci, c.Pad, c.Size, c.KeySeed, c.Scribble)
 	for _, op := range c.Ops {
-		s += fmt.Sprintf("|%s%d.%d.%d", op.K[:1], op.N, op.C, op.Spare)
+		s += fmt.Sprintf("|%s%d.%d.%d.%d", op.K[:1], op.N, op.C, op.Spare, op.Z)
 	}
 	return s
 }
@@ -454,26 +558,36 @@ func checkHist(c histCase, r *h.Rec) error {
 	o := c.Obj
 	bs := o.bs()
 	o.label(r)
-	m := newLib(o)
+	if c.Scribble {
+		r.Label("scribble")
+	}
+	m := newLibS(o, c.Scribble)
 	cm, isCMAC := m.(cmacFace)
 	if isCMAC != (o.Scheme == 5) {
 		return fmt.Errorf("%v: hash.Hash face present = %v", o, isCMAC)
 	}
 	var stream []byte // bytes written since the last Reset
+	var seen [3]bool
 	nMac, nWrite, nSum, empties, boundary := 0, 0, 0, 0, 0
-	sumCheck := func(i int, prefixLen int) error {
+	// sumCheck: Sum(in) with in = prefixLen bytes in the flavour (spare, z);
+	// Sum is documented to append, so spare capacity of in may be used.
+	sumCheck := func(i, prefixLen, spare, z int) error {
 		prefix := gen.Fill(gen.Mix(c.Seed, uint64(i), 0x707265), prefixLen)
-		in := append(make([]byte, 0, prefixLen+bs/2), prefix...) // some spare capacity, less than a tag when size is large
+		in, backing := argSlice(prefix, spare, z, &seen)
 		out := cm.Sum(in)
-		if len(out) < prefixLen || !bytes.Equal(out[:prefixLen], prefix) {
-			return fmt.Errorf("op %d: %v: Sum(in) does not start with in: in=%s out=%s", i, o, h.Hex(prefix), h.Hex(out))
+		if len(out) < prefixLen || !bytes.Equal(out[:prefixLen], prefix) || !bytes.Equal(in, prefix) {
+			return fmt.Errorf("op %d: %v: Sum(in) does not start with in or modified in: in=%s now %s out=%s", i, o, h.Hex(prefix), h.Hex(in), h.Hex(out))
 		}
-		tag := out[prefixLen:]
+		tag := append([]byte{}, out[prefixLen:]...)
+		if c.Scribble {
+			scribble(out)
+			scribble(backing)
+		}
 		after := describe(c.Ops[:min(i, len(c.Ops))])
 		// model-free relation first: it needs no reference to be believed
 		if fresh := freshTag(o, stream); !bytes.Equal(tag, fresh) {
-			return fmt.Errorf("op %d: %v: history dependence: Sum after %s = %s, MAC of the same %d bytes on a fresh object = %s (streamed message %s)",
-				i, o, after, h.Hex(tag), len(stream), h.Hex(fresh), h.Hex(stream))
+			return fmt.Errorf("op %d: %v: history dependence: Sum after %s = %s, MAC of the same %d bytes on a fresh object = %s (streamed message %s, scribble=%v)",
+				i, o, after, h.Hex(tag), len(stream), h.Hex(fresh), h.Hex(stream), c.Scribble)
 		}
 		if err := checkTag(o, stream, tag, r, fmt.Sprintf("op %d: Sum after %s", i, after)); err != nil {
 			return err
@@ -485,13 +599,12 @@ func checkHist(c histCase, r *h.Rec) error {
 		case "mac":
 			nMac++
 			orig := buildMsg(gen.Mix(c.Seed, uint64(i)), op.N, op.C, bs)
-			msg, backing := withSpare(orig, op.Spare)
-			tag := append([]byte{}, m.MAC(msg)...)
-			if !bytes.Equal(backing[:op.N], orig) {
-				return fmt.Errorf("op %d: %v: MAC modified the caller's message: %s -> %s", i, o, h.Hex(orig), h.Hex(backing[:op.N]))
+			tag, err := macCall(m, o, orig, op.Spare, op.Z, c.Scribble, r, &seen)
+			if err != nil {
+				return fmt.Errorf("op %d: %v", i, err)
 			}
 			if fresh := freshTag(o, orig); !bytes.Equal(tag, fresh) {
-				return fmt.Errorf("op %d: %v: history dependence: MAC(m) after %s = %s, on a fresh object = %s (m=%s)", i, o, describe(c.Ops[:i]), h.Hex(tag), h.Hex(fresh), h.Hex(orig))
+				return fmt.Errorf("op %d: %v: history dependence: MAC(m) after %s = %s, on a fresh object = %s (m=%s, scribble=%v)", i, o, describe(c.Ops[:i]), h.Hex(tag), h.Hex(fresh), h.Hex(orig), c.Scribble)
 			}
 			if err := checkTag(o, orig, tag, r, fmt.Sprintf("op %d: MAC after %s", i, describe(c.Ops[:i]))); err != nil {
 				return err
@@ -511,17 +624,18 @@ func checkHist(c histCase, r *h.Rec) error {
 				boundary++
 			}
 			data := buildMsg(gen.Mix(c.Seed, uint64(i)), op.N, op.C, bs)
-			p := append([]byte{}, data...)
+			p, backing := argSlice(data, op.Spare, op.Z, &seen)
 			n, err := cm.Write(p)
 			if n != op.N || err != nil {
 				return fmt.Errorf("op %d: %v: Write(%d bytes) = (%d, %v)", i, o, op.N, n, err)
 			}
-			if !bytes.Equal(p, data) {
-				return fmt.Errorf("op %d: %v: Write modified its argument", i, o)
+			// io.Writer: "Write must not modify the slice data, even temporarily.
+			// Implementations must not retain p."
+			if !bytes.Equal(p, data) || !spareUntouched(backing, op.N) {
+				return fmt.Errorf("op %d: %v: Write modified its argument or the spare capacity behind it", i, o)
 			}
-			// the object must not keep a reference into the caller's buffer
-			for j := range p {
-				p[j] ^= 0xff
+			if c.Scribble {
+				scribble(backing)
 			}
 			stream = append(stream, data...)
 		case "sum":
@@ -529,7 +643,7 @@ func checkHist(c histCase, r *h.Rec) error {
 				return fmt.Errorf("harness: sum op on a scheme without a streaming face")
 			}
 			nSum++
-			if err := sumCheck(i, op.N); err != nil {
+			if err := sumCheck(i, op.N, op.Spare, op.Z); err != nil {
 				return err
 			}
 		case "reset":
@@ -547,15 +661,18 @@ func checkHist(c histCase, r *h.Rec) error {
 	}
 	if isCMAC {
 		// every streaming history ends in an observation, twice (Sum; Sum)
+		final := seen // the closing observations do not count as generated flavours
 		for k := 0; k < 2; k++ {
-			if err := sumCheck(len(c.Ops), 0); err != nil {
+			if err := sumCheck(len(c.Ops), 0, k*2*bs, zBuf0*k); err != nil {
 				return err
 			}
 		}
+		seen = final
 		if got := cm.MAC(append([]byte{}, stream...)); !bytes.Equal(got, freshTag(o, stream)) {
 			return fmt.Errorf("%v: history dependence: final MAC(m) after %s = %s, fresh = %s", o, describe(c.Ops), h.Hex(got), h.Hex(freshTag(o, stream)))
 		}
 	}
+	labelFlavours(r, &seen)
 	if nMac+nWrite > 1 || (nWrite > 0 && nSum > 0) {
 		r.NT()
 	}
@@ -636,7 +753,10 @@ func TestC19_ReusePairs(t *testing.T) {
 						}
 						pad := pads[i%len(pads)]
 						ks := histKey(scheme, ci, n1, n2)
-						emit(histCase{Obj{scheme, ci, pad, size, ks}, []Op{{K: "mac", N: n1, Spare: (i % 3) * bs / 2}, {K: "mac", N: n2, Spare: (i / 3 % 3) * bs / 2}}, ks})
+						// zero-length messages rotate through nil / []byte{} / buf[:0]; three quarters scribble
+						emit(histCase{Obj{scheme, ci, pad, size, ks}, []Op{
+							{K: "mac", N: n1, Spare: (i % 3) * bs / 2, Z: i / 2 % 3},
+							{K: "mac", N: n2, Spare: (i / 3 % 3) * bs / 2, Z: i / 5 % 3}}, ks, i%4 != 1})
 						i++
 					}
 				}
@@ -676,8 +796,15 @@ func TestC19_CMACPartitions(t *testing.T) {
 						case 6:
 							ops = append(ops, Op{K: "write", N: 2*bs + 1 + i%(bs-1)}, Op{K: "reset"})
 						}
-						ops = append(ops, Op{K: "write", N: a}, Op{K: "sum", N: i % 3}, Op{K: "write", N: b}, Op{K: "sum"}, Op{K: "write", N: cc})
-						emit(histCase{Obj{5, ci, 0, size, ks}, ops, ks})
+						// empty writes and empty Sum prefixes rotate through nil / []byte{} / buf[:0];
+						// write buffers and Sum prefixes get spare capacity in turn; three quarters scribble
+						ops = append(ops,
+							Op{K: "write", N: a, Z: i % 3, Spare: (i / 3 % 2) * bs},
+							Op{K: "sum", N: i % 3, Z: i / 3 % 3, Spare: (i / 2 % 3) * bs},
+							Op{K: "write", N: b, Z: i / 2 % 3},
+							Op{K: "sum", Z: i / 4 % 3, Spare: (i % 3) * bs},
+							Op{K: "write", N: cc, Z: i / 5 % 3, Spare: (i / 7 % 2) * 3})
+						emit(histCase{Obj{5, ci, 0, size, ks}, ops, ks, i%4 != 2})
 						i++
 					}
 				}
@@ -713,9 +840,13 @@ func TestC19_RandomHistories(t *testing.T) {
 			ops[i] = Op{K: "mac",
 				N:     gen.LenClass(2048, bs).Draw(t, "len"),
 				C:     rapid.SampledFrom([]int{0, 0, 0, 1, 2, 3, 4, 5, 6}).Draw(t, "content"),
-				Spare: rapid.SampledFrom([]int{0, 0, 1, bs - 1, bs, 4 * bs}).Draw(t, "spare")}
+				Spare: rapid.SampledFrom([]int{0, 0, 1, bs - 1, bs, 4 * bs}).Draw(t, "spare"),
+				Z:     rapid.IntRange(0, 2).Draw(t, "zero-flavour")}
+			if rapid.IntRange(0, 9).Draw(t, "force-empty") == 0 {
+				ops[i].N = 0
+			}
 		}
-		return histCase{o, ops, rapid.Uint64().Draw(t, "seed")}
+		return histCase{o, ops, rapid.Uint64().Draw(t, "seed"), rapid.IntRange(0, 3).Draw(t, "scribble") != 0}
 	}, checkHist)
 }
 
@@ -755,18 +886,112 @@ func TestC19_CMACStateMachine(t *testing.T) {
 					k = gen.LenClass(2048, bs).Draw(t, "long")
 				}
 				pos += k
-				ops = append(ops, Op{K: "write", N: k, C: rapid.SampledFrom([]int{0, 0, 0, 1, 2}).Draw(t, "content")})
+				ops = append(ops, Op{K: "write", N: k, C: rapid.SampledFrom([]int{0, 0, 0, 1, 2}).Draw(t, "content"),
+					Z: rapid.IntRange(0, 2).Draw(t, "zero-flavour"), Spare: rapid.SampledFrom([]int{0, 0, 1, bs}).Draw(t, "spare")})
 			case "sum":
-				ops = append(ops, Op{K: "sum", N: rapid.IntRange(0, 3).Draw(t, "prefix")})
+				ops = append(ops, Op{K: "sum", N: rapid.SampledFrom([]int{0, 0, 1, 2, 3}).Draw(t, "prefix"),
+					Z: rapid.IntRange(0, 2).Draw(t, "zero-flavour"), Spare: rapid.SampledFrom([]int{0, 1, bs / 2, bs, 2 * bs}).Draw(t, "spare")})
 			case "reset":
 				pos = 0
 				ops = append(ops, Op{K: "reset"})
 			case "mac":
 				pos = 0
-				ops = append(ops, Op{K: "mac", N: gen.LenClass(6*bs, bs).Draw(t, "len"), Spare: rapid.SampledFrom([]int{0, 1, bs}).Draw(t, "spare")})
+				ops = append(ops, Op{K: "mac", N: gen.LenClass(6*bs, bs).Draw(t, "len"), Spare: rapid.SampledFrom([]int{0, 1, bs}).Draw(t, "spare"),
+					Z: rapid.IntRange(0, 2).Draw(t, "zero-flavour")})
 			}
 		}
-		return histCase{o, ops, rapid.Uint64().Draw(t, "seed")}
+		return histCase{o, ops, rapid.Uint64().Draw(t, "seed"), rapid.IntRange(0, 3).Draw(t, "scribble") != 0}
+	}, checkHist)
+}
+
+// ---------------------------------------------------------------- length boundaries
+
+// boundaryLens: message lengths around the points where a byte or block
+// counter, an offset or the method-3 bit-length field grows by one byte:
+// 255/256 and 65535/65536 bytes and blocks, and 8192 bytes = 2^16 bits.
+func boundaryLens(bs int) []int {
+	var out []int
+	seen := map[int]bool{}
+	for _, c := range []int{255, 256, 8192, 65535, 65536, 255 * bs, 256 * bs, 65535 * bs, 65536 * bs} {
+		for d := -1; d <= 1; d++ {
+			if n := c + d; !seen[n] {
+				seen[n] = true
+				out = append(out, n)
+			}
+		}
+	}
+	for i := range out { // smallest first
+		for j := i + 1; j < len(out); j++ {
+			if out[j] < out[i] {
+				out[i], out[j] = out[j], out[i]
+			}
+		}
+	}
+	return out
+}
+
+// TestC19_LengthBoundaries: every construction x cipher at the lengths of
+// boundaryLens (constructor flavour, tag size, spare capacity and scribbling
+// rotate in the quick tier; full flavour product in thorough), method 3
+// additionally at 2^21 bytes = 2^24 bits, and CMAC streams whose writes cross
+// the same boundaries.
+func TestC19_LengthBoundaries(t *testing.T) {
+	h.Sweep(t, h.P{Name: "length-boundaries"}, func(emit func(valCase)) {
+		i := 0
+		for _, ci := range ciphersForCfg() {
+			bs := ciphBS[ci]
+			for idx, n := range boundaryLens(bs) {
+				for scheme := 1; scheme <= 8; scheme++ {
+					if !validCombo(scheme, ci) {
+						continue
+					}
+					pads := padVariants(scheme)
+					if !h.Thorough() {
+						pads = []int{pads[(idx+scheme)%len(pads)]}
+					}
+					for _, pad := range pads {
+						size := bs
+						if i%2 == 1 {
+							size = 1 + i/2%(bs-1)
+						}
+						ks := histKey(scheme, ci, pad, n)
+						emit(valCase{Obj{scheme, ci, pad, size, ks}, n, []int{0, 0, 2, 5}[i%4], (i / 2 % 2) * bs, ks, zBuf0, i%3 != 0})
+						i++
+					}
+				}
+			}
+			for scheme := 1; scheme <= 8; scheme++ {
+				if !validCombo(scheme, ci) || !hasPadCtor(scheme) {
+					continue
+				}
+				for d := -1; d <= 1; d++ {
+					ks := histKey(scheme, ci, 3, d)
+					emit(valCase{Obj{scheme, ci, 3, bs, ks}, 1<<21 + d, 0, 0, ks, zBuf0, d == 0})
+				}
+			}
+		}
+	}, checkVal)
+	h.Sweep(t, h.P{Name: "length-boundaries-stream"}, func(emit func(histCase)) {
+		for _, ci := range ciphersForCfg() {
+			bs := ciphBS[ci]
+			w := func(n int) Op { return Op{K: "write", N: n} }
+			sum := Op{K: "sum"}
+			for j, ops := range [][]Op{
+				{w(255 * bs), sum, w(bs), sum, w(1)},
+				{w(256*bs - 1), w(1), sum, w(1)},
+				{w(255), w(1), sum, w(1), sum, w(65535 - 257), sum, w(1), sum, w(1)},
+				{w(65535 * bs), sum, w(bs), sum, w(bs + 1)},
+				{w(65536*bs + 1), {K: "reset"}, w(65536*bs - 1), sum, w(1), sum, w(1)},
+				{{K: "mac", N: 65536 * bs}, w(1), sum, {K: "mac", N: 65535*bs + 1}, w(256 * bs), sum},
+			} {
+				ks := histKey(5, ci, j)
+				size := bs
+				if j%2 == 1 {
+					size = bs / 2
+				}
+				emit(histCase{Obj{5, ci, 0, size, ks}, ops, ks, j%3 != 2})
+			}
+		}
 	}, checkHist)
 }
 
@@ -822,9 +1047,21 @@ func checkBit(c bitCase, r *h.Rec) error {
 	a := buildMsg(c.Seed, c.Len, c.Content, bs)
 	b := append([]byte{}, a...)
 	b[byteIdx] ^= 0x80 >> uint(c.Bit%8)
-	m := newLib(o)
-	ta := append([]byte{}, m.MAC(append([]byte{}, a...))...)
-	tb := append([]byte{}, m.MAC(append([]byte{}, b...))...)
+	// half of the pairs under the scribble discipline (a pure function of the case)
+	scrib := c.Bit%2 == 0
+	if scrib {
+		r.Label("scribble")
+	}
+	var seen [3]bool
+	m := newLibS(o, scrib)
+	ta, err := macCall(m, o, a, c.Bit%3, zBuf0, scrib, r, &seen)
+	if err != nil {
+		return err
+	}
+	tb, err := macCall(m, o, b, 0, zBuf0, scrib, r, &seen)
+	if err != nil {
+		return err
+	}
 	if err := checkTag(o, a, ta, r, "one-bit pair, first message"); err != nil {
 		return err
 	}
